@@ -14,7 +14,7 @@ void* __real_realloc(void*, size_t);
 void __real_free(void*);
 }
 
-bool g_track = false;
+volatile bool g_track = false; // volatile: the compiler knows free()/malloc() do not read globals
 long g_alloc_count = 0; // tracked allocation attempts so far
 long g_fail_at = 0; // 1-based index of the tracked allocation that fails (0 = none)
 long g_failed = 0; // how many injected failures fired
